@@ -738,7 +738,13 @@ func (c *Config) mutualVersion(vers uint16) (uint16, bool) {
 	if vers > maxVersion {
 		vers = maxVersion
 	}
-	return vers, true
+	// only versions this package implements: 0x0102..0x02ff lie between GMSSL and SSL 3.0
+	// numerically but name no protocol (the PRF selection panics on them)
+	switch vers {
+	case VersionGMSSL, VersionSSL30, VersionTLS10, VersionTLS11, VersionTLS12:
+		return vers, true
+	}
+	return 0, false
 }
 
 // getCertificate 返回密钥交换使用的证书及密钥
